@@ -315,11 +315,24 @@ func c10Styles(c *Ctx, F *model.Fields) {
 				R.Check(k == "", "C10.R3", key, "(*Policy).sanitizeStyles: attr.Val = "+fmt.Sprintf("%q", k), pos, "empty", "a constant style value is emitted")
 				continue
 			}
-			okJ := false
-			if j := isCallTo(st.Val, "strings.Join"); j != nil {
-				sep, _ := constString(j.Common().Args[1])
-				if sep == "; " && cleanPhi != nil && j.Common().Args[0] == ssa.Value(cleanPhi) {
-					okJ = true
+			isJoin := func(v ssa.Value) bool {
+				if j := isCallTo(v, "strings.Join"); j != nil {
+					sep, _ := constString(j.Common().Args[1])
+					return sep == "; " && cleanPhi != nil && j.Common().Args[0] == ssa.Value(cleanPhi)
+				}
+				return false
+			}
+			okJ := isJoin(st.Val)
+			if ph, isPhi := st.Val.(*ssa.Phi); isPhi && !okJ {
+				// a merge of the two admissible values (e.g. the result of an inlined helper): Join(kept, "; ") or ""
+				okJ = true
+				for _, e := range ph.Edges {
+					if k, isC := constString(e); isC && k == "" {
+						continue
+					}
+					if !isJoin(e) {
+						okJ = false
+					}
 				}
 			}
 			R.Check(okJ, "C10.R3", key, "(*Policy).sanitizeStyles: attr.Val = "+A.Sym.Of(st.Val), pos, "strings.Join(kept, \"; \")", "the emitted style value is not rebuilt from the kept declarations only")
